@@ -1,9 +1,10 @@
 (** C02: the hypotheses of the property theorems are satisfiable by non-trivial values.
     A linearly recursive grammar  X -> X a | a  and a non-linear one  Y -> Y Y | a  over a node
     label of size 2, in the Boolean semiring (whose laws are proved in Kleene_proofs). *)
-From Coq Require Import List Arith Bool PeanoNat Lia.
+From Coq Require Import QArith List Arith Bool PeanoNat Lia.
 Import ListNotations.
-Require Import Fggs.Model.SCC Fggs.Model.SumProduct Fggs.Model.Kleene
+Local Open Scope nat_scope.
+Require Import Fggs.Model.SCC Fggs.Model.SumProduct Fggs.Model.EReal Fggs.Model.Kleene
                Fggs.Proofs.SP_mono Fggs.Proofs.Kleene_proofs Fggs.Proofs.Kleene_control
                Fggs.Proofs.Kleene_linear Fggs.Proofs.Kleene_scc Fggs.Model.Semiring.
 
@@ -70,6 +71,22 @@ Proof.
     + destruct Hed as [<-|[<-|[]]]; cbn; auto.
     + destruct Hed as [<-|[]]; cbn in Ht; discriminate.
   - intros n [<-|[]]. cbn. auto.
+Qed.
+
+(** Real: a = [0, 3/16]:  X = a X + a  has X[1] = 3/13,  Y = Y Y + a  has Y[1] = 1/4; the
+    rounded iteration with inflation certifies an enclosure within 20 rounds *)
+Definition exw_real : env (R:=ereal) :=
+  fun l xi => match l, xi with 0, [1] => Fin (nn_of_Q (3 # 16)%Q) | _, _ => Fin nn0 end.
+
+Example ex_real_enclosure :
+  exists lo u, enclosure ereal_ops rd_real infl_real eleb exG exw_real 20 = Some (lo, u).
+Proof.
+  destruct (enclosure ereal_ops rd_real infl_real eleb exG exw_real 20) as [[lo u]|] eqn:E.
+  - exists lo, u. reflexivity.
+  - exfalso.
+    assert (H : match enclosure ereal_ops rd_real infl_real eleb exG exw_real 20 with
+                | Some _ => true | None => false end = true) by (vm_compute; reflexivity).
+    rewrite E in H. discriminate.
 Qed.
 
 (** a pre-fixed point that is not the least one: everything true *)
